@@ -2,7 +2,11 @@
 
 package types
 
-import "strings"
+import (
+	"strings"
+
+	"golang.org/x/crypto/xtea"
+)
 
 // C20 — identifier codecs.
 
@@ -148,6 +152,41 @@ func Harness_C20_grp_chn() {
 		verifAssert(ChnToGrp(s)[:3] == "grp" && ChnToGrp(s)[3:] == s[3:], "grp-spelling")
 	} else {
 		verifAssert(GrpToChn(s) == "" && ChnToGrp(s) == "" && !IsChannel(s), "other-names-rejected")
+	}
+	verifReach("end")
+}
+
+// The database form of an id (UidGenerator.DecodeUid / EncodeInt64: the id run through a block cipher): every
+// 64-bit id survives the round trip both ways, so the mapping is a bijection and no two ids share a database
+// key. The cipher is replaced by an arbitrary-looking involution (XOR mask) in the engine - any pair of mutually
+// inverse permutations would do; natively the real XTEA runs.
+//
+//verif:override (*golang.org/x/crypto/xtea.Cipher).Encrypt
+func verifCipherEncrypt(c *xtea.Cipher, dst, src []byte) {
+	for i := 0; i < 8; i++ {
+		dst[i] = src[i] ^ byte(0xA5+i)
+	}
+}
+
+//verif:override (*golang.org/x/crypto/xtea.Cipher).Decrypt
+func verifCipherDecrypt(c *xtea.Cipher, dst, src []byte) {
+	for i := 0; i < 8; i++ {
+		dst[i] = src[i] ^ byte(0xA5+i)
+	}
+}
+
+func Harness_C20_uid_database_form() {
+	var ug UidGenerator
+	if err := ug.Init(1, []byte("0123456789abcdef")); err != nil {
+		verifAssert(false, "generator-initialises")
+	}
+	u := Uid(verifNondetU64("uid"))
+	v := int64(verifNondetU64("dbkey"))
+	verifAssert(ug.EncodeInt64(ug.DecodeUid(u)) == u, "id-survives-the-database-form")
+	verifAssert(ug.DecodeUid(ug.EncodeInt64(v)) == v, "database-key-survives-the-id-form")
+	u2 := Uid(verifNondetU64("uid2"))
+	if u != u2 {
+		verifAssert(ug.DecodeUid(u) != ug.DecodeUid(u2), "distinct-ids-have-distinct-database-keys")
 	}
 	verifReach("end")
 }
